@@ -52,6 +52,27 @@ def _tracked_flags(ctx: Ctx, fi: FuncInfo, option_fields: list[str]) -> tuple[di
     adds = [(n, c) for n, c in flow.all_calls() if isinstance(c.func, ast.Attribute) and c.func.attr == "add"
             and isinstance(c.func.value, ast.Name) and c.func.value.id in set_names and c.args]
     if not adds:
+        # the set may be built in one expression: {field for dest, field in TABLE.items() if <supplied>}
+        for n in flow.cfg.nodes:
+            if n.kind == "stmt" and isinstance(n.ast, (ast.Assign, ast.AnnAssign)) and isinstance(getattr(n.ast, "value", None), ast.SetComp):
+                tg = n.ast.targets[0] if isinstance(n.ast, ast.Assign) else n.ast.target
+                sc = n.ast.value
+                if isinstance(tg, ast.Name) and tg.id in set_names and len(sc.generators) == 1 and isinstance(sc.elt, ast.Name):
+                    g = sc.generators[0]
+                    it = g.iter
+                    table_expr = it.func.value if isinstance(it, ast.Call) and isinstance(it.func, ast.Attribute) and it.func.attr == "items" else it
+                    lit = _table_literal(ctx, fi, flow, table_expr, n)
+                    if isinstance(lit, ast.Dict) and isinstance(g.target, ast.Tuple) and len(g.target.elts) == 2:
+                        kname, vname = (e.id if isinstance(e, ast.Name) else None for e in g.target.elts)
+                        for k, v in zip(lit.keys, lit.values):
+                            if isinstance(k, ast.Constant) and isinstance(v, ast.Constant):
+                                out[k.value] = v.value if sc.elt.id == vname else (k.value if sc.elt.id == kname else "?")
+                        return out, lit
+                    if isinstance(lit, (ast.Tuple, ast.List, ast.Set)) and isinstance(g.target, ast.Name):
+                        for e in lit.elts:
+                            if isinstance(e, ast.Constant) and isinstance(e.value, str):
+                                out[e.value] = e.value if sc.elt.id == g.target.id else "?"
+                        return out, lit
         raise AnalysisError("anchor vanished: nothing is ever added to the explicit-flags set")
     for n, c in adds:
         arg = c.args[0]
@@ -67,19 +88,7 @@ def _tracked_flags(ctx: Ctx, fi: FuncInfo, option_fields: list[str]) -> tuple[di
         it = h.ast.iter
         tgt = h.ast.target
         table_expr = it.func.value if isinstance(it, ast.Call) and isinstance(it.func, ast.Attribute) and it.func.attr == "items" else it
-        lit = table_expr
-        if isinstance(table_expr, ast.Name):
-            defs = flow.reaching(h, table_expr.id)
-            if not defs:
-                # a module-level table
-                r = ctx.repo.lookup(table_expr.id, fi.module, fi)
-                if not (isinstance(r, ConstInfo) and len(r.assigns) == 1 and getattr(r.assigns[0], "value", None) is not None):
-                    raise AnalysisError(f"explicit-flag table `{table_expr.id}` is neither a local nor a module-level literal")
-                lit = r.assigns[0].value
-            elif len(defs) != 1 or defs[0].value is None:
-                raise AnalysisError("explicit-flag table is not a single local literal")
-            else:
-                lit = defs[0].value
+        lit = _table_literal(ctx, fi, flow, table_expr, h)
         table_node = lit
         if isinstance(lit, ast.Dict) and isinstance(tgt, ast.Tuple) and len(tgt.elts) == 2:
             kname, vname = (e.id if isinstance(e, ast.Name) else None for e in tgt.elts)
@@ -95,6 +104,21 @@ def _tracked_flags(ctx: Ctx, fi: FuncInfo, option_fields: list[str]) -> tuple[di
     if table_node is None:
         table_node = adds[0][1]
     return out, table_node
+
+
+def _table_literal(ctx: Ctx, fi: FuncInfo, flow, table_expr: ast.AST, at: Node) -> ast.AST:
+    """The literal behind the explicit-flag table: written in place, bound to a local, or a module-level constant."""
+    if not isinstance(table_expr, ast.Name):
+        return table_expr
+    defs = flow.reaching(at, table_expr.id)
+    if not defs:
+        r = ctx.repo.lookup(table_expr.id, fi.module, fi)
+        if not (isinstance(r, ConstInfo) and len(r.assigns) == 1 and getattr(r.assigns[0], "value", None) is not None):
+            raise AnalysisError(f"explicit-flag table `{table_expr.id}` is neither a local nor a module-level literal")
+        return r.assigns[0].value
+    if len(defs) != 1 or defs[0].value is None:
+        raise AnalysisError("explicit-flag table is not a single local literal")
+    return defs[0].value
 
 
 def check_config(ctx: Ctx) -> None:
